@@ -55,6 +55,12 @@ struct UniqueGuard
 #include <atomic>
 #include <thread>
 
+#ifdef RLBOX_EMBEDDER_PROVIDES_TLS_STATIC_VARIABLES
+// the embedder-provided thread-local storage configuration of the noop and dylib backends
+RLBOX_NOOP_SANDBOX_STATIC_VARIABLES();
+RLBOX_DYLIB_SANDBOX_STATIC_VARIABLES();
+#endif
+
 using namespace rlbox;
 using MCfg = vsbx_ilp32f; // FINDER style: every example-based translation walks the shared registry
 using VS = rlbox_vsbx_sandbox<MCfg>;
